@@ -405,6 +405,7 @@ static struct upipe_mgr sink_mgr = {
 
 /* ------------------------------------------------- flow definitions, buffers */
 #define NTYPED 7
+static bool incomplete_defs;
 static struct uref *typed_def(uint64_t which, uint64_t x, int *kind_p)
 {
     struct uref *fd = NULL;
@@ -464,6 +465,18 @@ static struct uref *typed_def(uint64_t which, uint64_t x, int *kind_p)
             uref_flow_set_def(fd, "block.");
         *kind_p = K_BLOCK;
         break;
+    }
+    /* (one definition in four lacks what a picture or a sound needs - size, rate,
+     * channels: whoever needs it has to refuse, and refuse cleanly) */
+    if (fd != NULL && incomplete_defs && (x & 24) == 8) {
+        unsigned w = which % NTYPED;
+        if (w == 0) {
+            if (x & 1) uref_pic_flow_delete_fps(fd);
+            else { uref_pic_flow_delete_hsize(fd); uref_pic_flow_delete_vsize(fd); }
+        } else if (w >= 1 && w <= 3) {
+            if (x & 1) uref_sound_flow_delete_rate(fd);
+            else uref_sound_flow_delete_channels(fd);
+        }
     }
     if (fd != NULL) {
         if (x & 1) uref_clock_set_latency(fd, x * 1000 % 27000000);
@@ -759,8 +772,10 @@ static void do_op(const struct sim_op *op)
         if (s->handle == NULL)
             break;
         int kind = K_BLOCK;
+        incomplete_defs = fams[fam].only_def < 0;
         struct uref *fd = typed_def(fams[fam].only_def >= 0 ? (uint64_t)fams[fam].only_def : (uint64_t)op->a[1],
                                     (uint64_t)op->a[2], &kind);
+        incomplete_defs = false;
         if (fd == NULL)
             break;
         if (i != 0) {
